@@ -167,6 +167,8 @@ structure St where
   pendingAgree : Option String := none
   /-- the monitor `pendingAgree` is reported under -/
   pendingMon : String := "success_without_agreement"
+  /-- … and its classifier ("-" unless the situation is a listed known finding) -/
+  pendingClass : String := "-"
 
 def sections (s : String) : List (List String) := (s.splitOn " ; ").map words
 
@@ -327,13 +329,23 @@ def stepRunZ (s : St) (impl : String) : St × StepOut := Id.run do
   -- (a forged Initial sealed with the public Initial keys, …) can make the server side fail while the client completes
   let mut pending : Option String := none
   let mut pendingMon := "success_without_agreement"
+  -- Known finding C13-finished-blocked-behind-early-data (fixes/C13-finished-blocked-behind-early-data.diff): a client
+  -- whose congestion window is filled by an ACCEPTED 0-RTT flight that is still unacknowledged when the server's
+  -- Handshake flight arrives (the server's 1-RTT ACKs were lost, or dropped by the client: undecryptable queue full)
+  -- may not send its Finished (congestion limited: ACKs only), and the anti-deadlock PTO does not probe because
+  -- bytes_in_flight is not 0: both sides sit until their idle timeouts and then fail cleanly. Nothing is delivered
+  -- twice and both sides release their state; what does not hold is convergence under bounded loss. Reported under
+  -- its own classifier at the end of the case (not when an attack the protocol permits was acted upon).
+  let bigEarly := s.scn.get "zsize" == "cwnd" || s.scn.get "zsize" == "window"
+  let stalled := bigEarly && mode == "accept" && s.nFault + s.nInj > 0 && np == 0 && nr == 0 &&
+    (m.get "write" == "E:idle_timeout" || m.get "write" == "E:handshake_timeout")
   if hs == "complete" then
     if m.get "acc" == "ok" && (m.get "c0" != m.get "s0" || m.get "cv" != m.get "sv" || m.get "calpn" != m.get "salpn") then
       fails := fails ++ [("success_without_agreement", "-", impl)]
-    if m.get "acc" != "ok" then
+    if m.get "acc" != "ok" && !stalled then
       pending := some impl
     if b1 (m.get "c0") then
-      if !(np == 1 && nr == 0 && no == 0) then
+      if !(np == 1 && nr == 0 && no == 0) && !stalled then
         pending := some s!"accepted but server read npayload={np} nresend={nr} nother={no}: {impl}"
         pendingMon := "zero_rtt_exactly_once_or_never"
       if mode != "accept" then
@@ -355,10 +367,16 @@ def stepRunZ (s : St) (impl : String) : St × StepOut := Id.run do
   if m.get "cleft" != "0" || m.get "sleft" != "0" then
     fails := fails ++ [("state_not_released", "-", impl)]
   let tag := if hs == "complete" then (if b1 (m.get "c0") then "zrtt:accepted" else if b1 (m.get "early") then "zrtt:rejected" else "zrtt:not_attempted") else s!"zrtt:{hs}"
+  let tag := if stalled then "zrtt:stalled_behind_unacked_early_data" else tag
+  let mut pendingClass := "-"
+  if stalled then
+    pending := some s!"0-RTT accepted, early data larger than the congestion window, bounded faults: the handshake stalls until the idle timeouts: {impl}"
+    pendingMon := "bounded_faults_do_not_converge"
+    pendingClass := "finished_blocked_behind_unacked_early_data"
   let tag := if s.scn.get "client" == "chrome" then tag ++ ":parrot" ++ (if b1 (m.get "resumed") then ":resumed" else "") else tag
   -- for the convergence monitor the outcome of the dial is the outcome of the handshake
-  let m' : KV := ("dial", if hs == "complete" then "nil" else hs) :: m.filter (fun p => p.1 != "dial")
-  return ({ s with ran := true, run := m', ntrace := natOf (m.get "ntrace"), pendingAgree := pending, pendingMon := pendingMon }, { model := impl, tags := [tag, "zrtt:" ++ mode], fails := fails })
+  let m' : KV := ("dial", if hs == "complete" || stalled then "nil" else hs) :: m.filter (fun p => p.1 != "dial")
+  return ({ s with ran := true, run := m', ntrace := natOf (m.get "ntrace"), pendingAgree := pending, pendingMon := pendingMon, pendingClass := pendingClass }, { model := impl, tags := [tag, "zrtt:" ++ mode], fails := fails })
 
 def stepRun (s : St) (impl : String) : St × StepOut := Id.run do
   let m := kvOf (words impl)
@@ -408,8 +426,28 @@ def stepRun (s : St) (impl : String) : St × StepOut := Id.run do
     -- earlier attempt deletes the handler entry of the next dial on the same transport when it expires
     let zeroLenRedial := s.scn.get "client" == "chrome" && m.get "redial" == "E:idle_timeout"
     fails := fails ++ [("redial_after_failure_fails", if zeroLenRedial then "zero_len_scid_redial_unroutable" else "-", impl)]
+  -- ... and a second dial on the same transport (clean network, same spec value) after a SUCCESSFUL one completes too:
+  -- nothing the first connection left behind - in the transport, in the caller's spec - may make it fail
+  if dial == "nil" && !cancelled && !(m.get "redial" == "nil" || m.get "redial" == "-" || m.get "redial" == "") then
+    fails := fails ++ [("redial_after_success_fails", "-", impl)]
+  -- aliasing: one QUICSpec value serves every connection of the case (and whatever the caller dials next), so a dial
+  -- must not leave per-connection state in it. Deep snapshots of the caller's value (one hash per ClientHello
+  -- extension) before the dial, after it and after the second dial: the first use may fill in connection-independent
+  -- values that are drawn once per spec (the GREASE parameter's id and value, the ALPS code point) - after that the
+  -- spec no longer moves; and no part of it ever holds a connection ID one of the connections used on the wire.
+  let mut tags : List String := []
+  if m.get "taint" != "" && m.get "taint" != "-" then
+    fails := fails ++ [("connection_id_left_in_caller_spec", "-", s!"after the dial the caller's QUICSpec holds a connection's source connection ID in: {m.get "taint"}")]
+  match (m.get "specs").splitOn "|" with
+  | [s0, s1, s2] =>
+    let changed (a b : String) : List String :=
+      ((a.splitOn ",").zip (b.splitOn ",")).filterMap fun (x, y) => if x != y then some ((x.splitOn ":").headD "?") else none
+    tags := tags ++ (if s0 == s1 then ["spec:untouched"] else (changed s0 s1).map fun p => "spec:first_use:" ++ ((p.splitOn ".").getD 1 p))
+    if s1 != s2 && dial == "nil" && m.get "redial" == "nil" then
+      fails := fails ++ [("caller_spec_written_by_later_dial", "-", s!"the second dial with one QUICSpec value modified it: {changed s1 s2}")]
+  | _ => pure ()
   let tag := if dial == "nil" then "run:ok" else s!"run:{dial}"
-  return ({ s with ran := true, run := m, ntrace := natOf (m.get "ntrace"), pendingAgree := pending }, { model := impl, tags := [tag], fails := fails })
+  return ({ s with ran := true, run := m, ntrace := natOf (m.get "ntrace"), pendingAgree := pending }, { model := impl, tags := tag :: tags, fails := fails })
 
 def stepDeadline (s : St) (impl : String) : St × StepOut :=
   match impl.splitOn " | " with
@@ -475,7 +513,7 @@ def final (s : St) : List (String × String × String) :=
     [("bounded_faults_do_not_converge", "-", s!"dial={s.run.get "dial"} with {s.nFault} faults and {s.nInj} ineffective injections")]
   else []) ++
   (match s.pendingAgree with
-   | some impl => if complete && !s.effective && !s.harmed then [(s.pendingMon, "-", impl)] else []
+   | some impl => if complete && !s.effective && !s.harmed then [(s.pendingMon, s.pendingClass, impl)] else []
    | none => [])
 
 def main : IO Unit := run { init := ({} : St), step := step, final := final }
